@@ -109,6 +109,7 @@ type Engine struct {
 	Budget        string
 	Witnesses     []string
 	scriptN       int
+	proved        map[[20]byte]bool // obligations already answered unsat (key: assertion + path condition)
 }
 
 func NewEngine(opt Options) (*Engine, error) {
@@ -641,9 +642,23 @@ func (e *Engine) Assert(c *term.Term, label string) {
 	}
 	site := e.site()
 	e.Obligations++
+	// The DFS re-executes path prefixes, so the same obligation (same path
+	// condition, same assertion: terms are hash-consed, ids are stable) comes
+	// back on every path sharing the prefix; an identical query that was
+	// answered unsat is not sent again.
+	key := e.oblKey(c)
+	if e.proved[key] {
+		e.Discharged++
+		e.pathAsserts = append(e.pathAsserts, label)
+		return
+	}
 	r, model, solver, file := e.decide(term.Not(c), label)
 	switch r {
 	case smt.Unsat:
+		if e.proved == nil {
+			e.proved = map[[20]byte]bool{}
+		}
+		e.proved[key] = true
 		e.Discharged++
 		e.pathAsserts = append(e.pathAsserts, label)
 		return
@@ -655,6 +670,15 @@ func (e *Engine) Assert(c *term.Term, label string) {
 		// continue the path under the asserted condition
 		e.addPC(c)
 	}
+}
+
+func (e *Engine) oblKey(c *term.Term) [20]byte {
+	var b strings.Builder
+	fmt.Fprintf(&b, "%d", c.ID)
+	for _, p := range e.pc {
+		fmt.Fprintf(&b, "|%d", p.ID)
+	}
+	return sha1.Sum([]byte(b.String()))
 }
 
 func (e *Engine) ReachTag(tag string) {
